@@ -1167,6 +1167,7 @@ var predEntries = []predEntry{
 	{"payloadOffset", false},
 	{"calcPacketAdaptationFieldExtensionLength", false},
 	{"calcPacketAdaptationFieldLength", false},
+	{"packetAdaptationFieldSize", false},
 	{"calcPESOptionalHeaderDataLength", false},
 	{"calcPESOptionalHeaderLength", false},
 	{"newStuffingAdaptationField", false},
